@@ -285,8 +285,14 @@ func runC11(c *Ctx) {
 		for _, r := range reads {
 			ok := false
 			detail := "reply argument is not a variable allocated inside the retry loop"
-			if len(r.Args) == 2 {
-				if obj := eng.ObjOf(info, r.Args[1]); obj != nil {
+			var replyArg ast.Expr
+			for _, a := range r.Args {
+				if tv, ok := info.Types[a]; ok && eng.TypeName(tv.Type) == "dht/pb.Message" {
+					replyArg = a
+				}
+			}
+			if replyArg != nil {
+				if obj := eng.ObjOf(info, replyArg); obj != nil {
 					def := f.LocalVarDef(obj)
 					fresh := false
 					if def != nil {
